@@ -2689,7 +2689,7 @@ cat_status cat_service(struct cat_object *self)
                 break;
         }
 
-        if ((unsolicited_stat != CAT_STATUS_OK) || (is_unsolicited_fsm_busy(self) != false)) {
+        if ((unsolicited_stat != CAT_STATUS_OK) || (is_unsolicited_fsm_busy(self) != false) || (is_unsolicited_buffer_empty(self) == false)) {
                 s = CAT_STATUS_BUSY;
         }
 
